@@ -245,6 +245,41 @@ class Verifier:
         fr.wall = time.time() - t0
         return fr
 
+    def verify_lemmas(self, prop, path):
+        """lemmas over specification functions only: `assume` => `prove` for all values of the declared variables"""
+        c = S.Contract(f"{path}::lemmas", prop)
+        fr = FuncResult(c)
+        t0 = time.time()
+        for lem in self.reg.lemmas:
+            if lem["prop"] != prop:
+                continue
+            forced = []
+            while True:
+                run = E.Run(forced, None)
+                I = self.make_interp(c, fr, run, "lemma")
+                try:
+                    env = {n: I.fresh(parse_type(t), n) for n, t in lem["vars"].items()}
+                    sframe = E.Frame("<spec>", None, env, None, "lemma")
+                    for a in lem["assume"]:
+                        run.assume(self.eval_bool(I, a, sframe))
+                    if run.quick_feasible(5000):
+                        fr.paths += 1
+                        I.ctx.oblige(I, "lemma", lem["name"], self.eval_bool(I, lem["prove"], sframe), "", False, text=lem["prove"])
+                    else:
+                        fr.pruned += 1
+                except E.PathEnd:
+                    fr.pruned += 1
+                except E.Unsupported as u:
+                    fr.unsupported.append(f"lemma {lem['name']}: {u}")
+                fr.solver_calls += run.n_solver
+                fr.solver_time += run.t_solver
+                nxt = E.next_forced(run.log)
+                if nxt is None:
+                    break
+                forced = nxt
+        fr.wall = time.time() - t0
+        return fr
+
     # ------------------------------------------------------------------
     def make_interp(self, c, fr, run, qual):
         ctx = Ctx(fr, qual)
